@@ -31,7 +31,13 @@ NAME_LIST = T.TList(T.NAME)
 record('PcDFIndex', values='List[Name]')
 record('PcDataFrame', index='PcDFIndex')
 
-_H5AD_NAMES = z3.Function('h5ad_names', z3.IntSort(), z3.IntSort(), T.sort_of(NAME_LIST))
+# one function symbol for "index values of the obs / var frame of the file at a path": the trusted
+# contract of read_df_from_h5ad in contracts/c_output_utils.py states its result with `df_index`
+# (pyvc/ext/outputs.py); `h5ad_names` below is the same function under this area's name
+try:
+    from pyvc.ext.outputs import DF_INDEX as _H5AD_NAMES
+except Exception:      # outputs area absent: own symbol (then the QUALIFIED handler below is used)
+    _H5AD_NAMES = z3.Function('h5ad_names', z3.IntSort(), z3.IntSort(), T.sort_of(NAME_LIST))
 
 
 def _arg(node, pos, name):
@@ -274,3 +280,161 @@ def check_lemmas():
 
 
 check_lemmas()
+
+
+# ---------------------------------------------------------------------------------------------
+# numpy.sort (1-D)
+# ---------------------------------------------------------------------------------------------
+def q_np_sort(ev, state, node):
+    """np.sort(v): a sorted permutation of v (prims.sorted_perm_of); a sequence that is already
+    sorted is returned unchanged (the sorted permutation of a sorted sequence is that sequence)"""
+    from pyvc.prims import sorted_perm_of
+    v = ev.eval(state, node.args[0])
+    if v.ty[0] not in ('arr', 'list') or v.ty[1] not in (T.INT, T.REAL, T.NAME) or node.keywords \
+            or len(node.args) != 1:
+        raise Unsupported("np.sort form")
+    v = SymVal(T.TArr(v.ty[1]), v.term)
+    r = sorted_perm_of(state, v, hint='npsort')
+    i, j = z3.Int(fresh_name('so_i')), z3.Int(fresh_name('so_j'))
+    n = seq_len(v)
+    already = z3.ForAll([i, j], z3.Implies(z3.And(0 <= i, i < j, j < n), seq_at(v, i) <= seq_at(v, j)))
+    same = z3.ForAll([i], z3.Implies(z3.And(0 <= i, i < n), seq_at(r, i) == seq_at(v, i)))
+    state.assume(z3.Implies(already, same))
+    return r
+
+
+if 'numpy.sort' not in QUALIFIED:
+    from pyvc import numpy_prims as _np_prims
+    if 'numpy.sort' not in _np_prims.QUALIFIED:
+        qualified('numpy.sort')(q_np_sort)
+
+
+# ---------------------------------------------------------------------------------------------
+# AnnDataRowIterator as used by the precompute stage: random access by get_chunk(r0, r1)
+# ---------------------------------------------------------------------------------------------
+record('PcRowIter', h5ad_path='Name', n_rows='Int')
+
+
+def q_row_iterator(ev, state, node):
+    """A-H5AD: the matrix of an h5ad file has one row per obs name (anndata invariant)"""
+    pa = _arg(node, 0, 'h5ad_path')
+    for k in node.keywords:
+        if k.arg != 'h5ad_path':
+            try:
+                ev.eval(state, k.value)
+            except Unsupported:
+                if not ev.ctx.lenient:
+                    raise
+    p = ev.eval(state, pa)
+    if p.ty != T.NAME:
+        raise Unsupported("AnnDataRowIterator of an abstracted path")
+    ty = T.TRec('PcRowIter')
+    names = SymVal(NAME_LIST, _H5AD_NAMES(p.term, literal('obs').term))
+    state.assume(*wf(names))
+    return SymVal(ty, T.ctor(ty)(p.term, seq_len(names)))
+
+
+_AIT = 'cell_type_mapper.anndata_iterator.anndata_iterator.AnnDataRowIterator'
+if _AIT not in QUALIFIED:
+    qualified(_AIT)(q_row_iterator)
+
+from pyvc import ghost as _ghost   # noqa: E402
+
+
+@_ghost.method('PcRowIter', 'get_chunk')
+def m_get_chunk(ev, state, node, recv, ref):
+    """trusted (C05 covers the contents): returns (rows r0:r1, r0, r1); the range must lie in the file"""
+    r0 = ev.eval(state, _arg(node, 0, 'r0'))
+    r1 = ev.eval(state, _arg(node, 1, 'r1'))
+    a, b = to_int(r0), to_int(r1)
+    n = T.acc(recv.ty, 'n_rows')(recv.term)
+    ev.ctx.oblige(state, z3.And(0 <= a, a <= b, b <= n), 'requires', node,
+                  'get_chunk: 0 <= r0 <= r1 <= n_rows of the file')
+    ty = T.TTuple([T.OPAQUE, T.INT, T.INT])
+    rows = fresh(T.OPAQUE, 'chunk_rows')
+    return SymVal(ty, T.ctor(ty)(rows.term, a, b))
+
+
+def q_shutil_copy(ev, state, node):
+    """A-COPY: after shutil.copy(src, dst) the file at dst holds the content of src, hence the
+    same obs / var names"""
+    sa, da = _arg(node, 0, 'src'), _arg(node, 1, 'dst')
+    if sa is None or da is None:
+        raise Unsupported("shutil.copy arguments")
+    src, dst = ev.eval(state, sa), ev.eval(state, da)
+    if src.ty != T.NAME or dst.ty != T.NAME:
+        raise Unsupported("shutil.copy of abstracted paths")
+    w = z3.Int(fresh_name('cw'))
+    state.assume(z3.ForAll([w], _H5AD_NAMES(dst.term, w) == _H5AD_NAMES(src.term, w),
+                           patterns=[_H5AD_NAMES(dst.term, w)]))
+    return dst
+
+
+if 'shutil.copy' not in QUALIFIED:
+    qualified('shutil.copy')(q_shutil_copy)
+
+
+# ---------------------------------------------------------------------------------------------
+# numpy reductions used by the precompute area: M.sum(axis=0), v.sum()  (uninterpreted folds)
+# ---------------------------------------------------------------------------------------------
+from pyvc import numpy_prims as _npp   # noqa: E402
+
+_AREA = ('diff_exp.truncate_precompute', 'diff_exp.precompute_utils', 'diff_exp.precompute_from_anndata',
+         'utils.stats_utils.summary_stats_for_chunk')
+_COLSUM = {}
+_VSUM = {}
+
+
+def _mine(ev):
+    q = ev.ctx.qualname or ''
+    return any(a in q for a in _AREA)
+
+
+def _axis_of(ev, state, node):
+    a = node.args[0] if node.args else None
+    for k in node.keywords:
+        if k.arg == 'axis':
+            a = k.value
+    if a is None:
+        return None
+    v = ev.eval(state, a)
+    if v.meta and v.meta[0] == 'const':
+        return v.meta[1]
+    raise Unsupported("symbolic axis")
+
+
+def _precompute_method(orig, ev, state, node, recv, ref, name):
+    if _mine(ev) and name == 'sum':
+        if recv.ty[0] == 'arr2' and recv.ty[1] in (T.INT, T.REAL) and _axis_of(ev, state, node) == 0:
+            # column sums: colsum(M, c), an uninterpreted function of the matrix and the column
+            s = T.sort_of(recv.ty)
+            if s not in _COLSUM:
+                _COLSUM[s] = z3.Function('colsum_' + T.mangle(recv.ty), s, z3.IntSort(), T.sort_of(recv.ty[1]))
+            n1 = T.acc(recv.ty, 'n1')(recv.term)
+            r = fresh(T.TArr(recv.ty[1]), 'colsums')
+            c = z3.Int(fresh_name('cs'))
+            state.assume(seq_len(r) == n1,
+                         z3.ForAll([c], z3.Implies(z3.And(0 <= c, c < n1),
+                                                   seq_at(r, c) == _COLSUM[s](recv.term, c))))
+            return r
+        if recv.ty[0] == 'arr' and recv.ty[1] in (T.INT, T.REAL) and not node.args and not node.keywords:
+            s = T.sort_of(recv.ty)
+            if s not in _VSUM:
+                _VSUM[s] = z3.Function('vsum_' + T.mangle(recv.ty), s, T.sort_of(recv.ty[1]))
+            return SymVal(recv.ty[1], _VSUM[s](recv.term))
+    return orig(ev, state, node, recv, ref, name)
+
+
+def install_hooks():
+    """wrap numpy_prims.method (outermost, idempotent).  Called from the contract files of this area,
+    i.e. after every extension module is loaded: other areas wrap the same function without a gate
+    and would otherwise reject `M.sum(axis=0)` before this model is consulted."""
+    if getattr(_npp.method, '_precompute', False):
+        return
+    orig = _npp.method
+
+    def _wrapped_method(ev, state, node, recv, ref, name):
+        return _precompute_method(orig, ev, state, node, recv, ref, name)
+    _wrapped_method.__name__ = 'method'
+    _wrapped_method._precompute = True
+    _npp.method = _wrapped_method
